@@ -167,7 +167,7 @@ def main(pid, argv):
         ck.evaluations += 1
         results = il.split(" ; ")
         bad = None
-        if il.startswith("PANIC") or il.startswith("CRASH"):
+        if il.startswith(("PANIC", "CRASH", "HANG")):
             bad = il[:300]
         elif meta is not None:
             ident, hist = meta
